@@ -210,6 +210,47 @@ theorem gor_definition (c : Ctx K) :
       some (if evalRate .oil false c = 0 then 0 else evalRate .gas false c / evalRate .oil false c) :=
   gor_value c
 
+/-- Gas-liquid ratio = gas / (water + oil), 0 when no liquid is produced (W, G and F level). -/
+theorem glr_definition (c : Ctx K) :
+    ∀ x ∈ levels, (lookupFun (lvl x "GLR")).bind (evalE c) =
+      some (if evalRate .wat false c + evalRate .oil false c = 0 then 0
+            else evalRate .gas false c / (evalRate .wat false c + evalRate .oil false c)) :=
+  glr_value c
+
+/-- `WOGR` = oil / gas and `WWGR` = water / gas, 0 when no gas is produced. -/
+theorem well_gas_ratio_definition (c : Ctx K) :
+    (lookupFun "WOGR").bind (evalE c) =
+      some (if evalRate .gas false c = 0 then 0 else evalRate .oil false c / evalRate .gas false c) ∧
+    (lookupFun "WWGR").bind (evalE c) =
+      some (if evalRate .gas false c = 0 then 0 else evalRate .wat false c / evalRate .gas false c) :=
+  well_gas_ratio_value c
+
+/-- The history ratios `XWCTH`, `XGORH`, `XGLRH` (X ∈ {W, G, F}) are the same expressions of the
+observed (schedule) rates, `histProd c ph` being the efficiency-weighted sum of the observed
+rates of phase `ph` over the flowing wells (`history_sem`). -/
+theorem history_ratio_definition (c : Ctx K) :
+    ∀ x ∈ levels,
+      (lookupFun (lvl x "WCTH")).bind (evalE c) =
+        some (if histProd c .water + histProd c .oil = 0 then 0
+              else histProd c .water / (histProd c .water + histProd c .oil)) ∧
+      (lookupFun (lvl x "GORH")).bind (evalE c) =
+        some (if histProd c .oil = 0 then 0 else histProd c .gas / histProd c .oil) ∧
+      (lookupFun (lvl x "GLRH")).bind (evalE c) =
+        some (if histProd c .water + histProd c .oil = 0 then 0
+              else histProd c .gas / (histProd c .water + histProd c .oil)) :=
+  history_ratio_value c
+
+/-- `quantity::operator/` has no threshold: for every non-zero denominator — however small, in
+whatever unit system — the reported ratio times the denominator is the numerator. -/
+theorem ratio_has_no_threshold (c : Ctx K) (a b : E) (x y r : K) (ha : evalE c a = some x)
+    (hb : evalE c b = some y) (hy : y ≠ 0) (hr : evalE c (.div a b) = some r) : r * y = x :=
+  evalE_div_mul c a b x y r ha hb hy hr
+
+/-- A ratio vector is reported as zero only if its numerator or its denominator is exactly zero. -/
+theorem ratio_zero_only_for_zero (c : Ctx K) (a b : E) (x y : K) (ha : evalE c a = some x)
+    (hb : evalE c b = some y) : evalE c (.div a b) = some 0 ↔ (y = 0 ∨ x = 0) :=
+  evalE_div_eq_zero c a b x y ha hb
+
 /-- Voidage production rate = sum of the three reservoir-volume rates. -/
 theorem voidage_definition (c : Ctx K) :
     ∀ x ∈ levels, (lookupFun (lvl x "VPR")).bind (evalE c) =
@@ -395,6 +436,18 @@ example : lookupFun "WOPT" = some (.mul (.rate .oil false) .duration) ∧ stateI
 example : civilFromDays 0 = (1970, 1, 1) ∧ civilFromDays 19782 = (2024, 2, 29) ∧
     daysFromCivil 2024 2 29 = 19782 ∧ simDate 1577836800 (86400 * 1000000000 * 60) = (2020, 3, 1) := by
   decide +kernel
+
+/-- a nearly dead well: oil 1e-12, gas 1e-3 (SI): the gas-oil ratio is 1e9, not 0 -/
+def ctxTiny : Ctx ℚ :=
+  { wells := [{ name := "P1", group := "G1", seq := 0, wefac := 1,
+                dyn := some { shut := false, rates := [(.oil, -1 / 1000000000000), (.gas, -1 / 1000)] },
+                hprod := fun _ => 1 / 10000, hinj := fun _ => 0 }],
+    efac := fun _ => 1, dt := 1 }
+
+example : evalE ctxTiny (.div (.rate .gas false) (.rate .oil false)) = some 1000000000 := by
+  simp [evalE, evalRate, rateLoop, ctxTiny, lookupRate]; norm_num
+example : evalRate .oil false ctxTiny ≠ 0 := by
+  simp [evalRate, rateLoop, ctxTiny, lookupRate]
 
 end Examples
 
